@@ -71,21 +71,10 @@ theorem C18_counterexample_part_number_not_validated :
     Differs [.createBucket bka, .createMultipartUpload alice bka kA none, .uploadPart alice bka kA (some 1) 0 [1]] := by
   decide
 
-/-- fs:failed-complete-consumes-upload: both refuse the complete (EntityTooSmall), then the upload is gone -/
-theorem C18_counterexample_failed_complete_consumes_upload :
-    Differs [.createBucket bka, .createMultipartUpload alice bka kA none, .uploadPart alice bka kA (some 1) 1 [1],
-      .uploadPart alice bka kA (some 1) 2 [2], .completeMultipartUpload alice bka kA (some 1) (some [some 1, some 2]),
-      .uploadPart alice bka kA (some 1) 3 [3]] := by decide
-
 /-- fs:complete-requires-consecutive-parts -/
 theorem C18_counterexample_complete_requires_consecutive :
     Differs [.createBucket bka, .createMultipartUpload alice bka kA none, .uploadPart alice bka kA (some 1) 2 [1],
       .completeMultipartUpload alice bka kA (some 1) (some [some 2])] := by decide
-
-/-- fs:complete-missing-part-internal-error -/
-theorem C18_counterexample_complete_missing_part :
-    Differs [.createBucket bka, .createMultipartUpload alice bka kA none,
-      .completeMultipartUpload alice bka kA (some 1) (some [some 1])] := by decide
 
 /-! ## repaired: histories that were counterexamples before the repairs and on which the model now agrees with the store
 
@@ -93,6 +82,7 @@ theorem C18_counterexample_complete_missing_part :
 metadata file; ca1e912 copy onto itself keeps the object; d6f1a3c head_object tells a missing key from a missing bucket;
 24de822 delete_bucket refuses a bucket that holds objects; 20fee59 delete_object of a key that does not exist succeeds; cc244fc (and 20fee59 for delete_object) an object in a bucket
 that does not exist is `NoSuchBucket`, not `NoSuchKey`; 0f31b61 delete_objects on a bucket that does not exist is `NoSuchBucket`; 42c2f29 head_object returns the ETag;
+0932917 complete_multipart_upload validates the part list and the part files before it changes anything: a failed complete leaves the upload in place, a part that was never uploaded is `InvalidPart`;
 b89afe2 ranged reads: covered for all ranges by `C18_get_refines_partial` and `C18_range_check`, the kernel cannot
 evaluate the decimal formatter of `Content-Range`) -/
 
@@ -190,6 +180,32 @@ theorem C18_fixed_head_without_etag :
     (run H0 0 {} [.createBucket bka, .putObject bka kA [1] mdV {} none, .headObject bka kA, .getObject bka kA none]).2 =
       [.ok, .put (some (etagOf H0 [1])) {}, .head 1 (some (etagOf H0 [1])) [([109], [118])],
        .get [1] 1 none (some (etagOf H0 [1])) [([109], [118])] {}] := by decide
+
+/-- was fs:failed-complete-consumes-upload (the witness history of `corpus/fs.txt`, then the same upload completed): both
+    refuse the complete whose first part is too small (`EntityTooSmall`), the upload is still there on both sides — another
+    part can be added, the parts are listed, and the complete of the first part alone succeeds; then the upload is gone -/
+theorem C18_fixed_failed_complete_keeps_upload :
+    Same [.createBucket bka, .createMultipartUpload alice bka kA none, .uploadPart alice bka kA (some 1) 1 [1],
+      .uploadPart alice bka kA (some 1) 2 [2], .completeMultipartUpload alice bka kA (some 1) (some [some 1, some 2]),
+      .uploadPart alice bka kA (some 1) 3 [3], .listParts alice bka kA (some 1),
+      .completeMultipartUpload alice bka kA (some 1) (some [some 1]), .getObject bka kA none] ∧
+    (run H0 0 {} [.createBucket bka, .createMultipartUpload alice bka kA none, .uploadPart alice bka kA (some 1) 1 [1],
+      .uploadPart alice bka kA (some 1) 2 [2], .completeMultipartUpload alice bka kA (some 1) (some [some 1, some 2]),
+      .uploadPart alice bka kA (some 1) 3 [3], .listParts alice bka kA (some 1),
+      .completeMultipartUpload alice bka kA (some 1) (some [some 1]), .getObject bka kA none]).2.map tagOf =
+      [none, none, none, none, some .EntityTooSmall, none, none, none, none] := by decide
+
+/-- was fs:complete-missing-part-internal-error (the witness history of `corpus/fs.txt`, then the part uploaded and the
+    complete repeated): a complete naming a part that was never uploaded is `InvalidPart` on both sides and leaves the upload
+    in place; once the part exists the same request succeeds -/
+theorem C18_fixed_complete_missing_part :
+    Same [.createBucket bka, .createMultipartUpload alice bka kA none,
+      .completeMultipartUpload alice bka kA (some 1) (some [some 1]), .uploadPart alice bka kA (some 1) 1 [1],
+      .completeMultipartUpload alice bka kA (some 1) (some [some 1]), .getObject bka kA none] ∧
+    (run H0 0 {} [.createBucket bka, .createMultipartUpload alice bka kA none,
+      .completeMultipartUpload alice bka kA (some 1) (some [some 1]), .uploadPart alice bka kA (some 1) 1 [1],
+      .completeMultipartUpload alice bka kA (some 1) (some [some 1]), .getObject bka kA none]).2.map tagOf =
+      [none, none, some .InvalidPart, none, none, none] := by decide
 
 /-- was fs:suffix-range-longer-than-object / fs:suffix-range-huge-panics: the model no longer fails or panics (the answer
     itself is compared by `C18_get_refines_partial`) -/
